@@ -35,7 +35,9 @@ def handleMR (op : String) (j : Json) : Option Json :=
     let xs := List.range n
     some <| Json.mkObj [("blocks", jList (jList jNat) (if ms = 1 then xs.map ([·]) else breakUp ms xs)),
       ("value", jList jNat (mapValue (· * 2 + 1) ms xs)),
-      ("items", jList (jOpt jNat) (xs.map (fun p => blockGet (mapBlocks (· * 2 + 1) ms xs) ms p)))]
+      ("items", jList (jOpt jNat) (xs.map (fun p => blockGet (mapBlocks (· * 2 + 1) ms xs) ms p))),
+      -- integer indices -n-2 .. n+1 (null = IndexError)
+      ("int_items", jList (jOpt jNat) ((List.range (2 * n + 4)).map (fun (k : Nat) => baGet (mapValue (· * 2 + 1) ms xs) (Int.ofNat k - Int.ofNat n - 2))))]
   | "currymap" =>
     let n := getNat j "n"; let ms := getNat j "ms"
     let xs := (List.range n).map (fun i => (i, i + 1))
